@@ -29,7 +29,10 @@ RULE = ("for ADC variants pp/ip/ea (dip/dea thorough), blocks and orders "
         "prime); (ii) block(I,J) against the transposed bra/ket-swapped "
         "block(J,I) in a real basis and (iii) the matrix-vector product "
         "against prefactor * block * amplitude vector, both decided by the "
-        "Coq validator for all Hamiltonians; (iv) block_order / "
+        "Coq validator for all Hamiltonians; (iii') mvp(adc_order, space, "
+        "order=k) against the sum of the k'th-order block contributions of "
+        "ADC(adc_order) and order=None against the sum over k; (iv) "
+        "block_order / "
         "max_ptorder_spaces against closed forms.  Non-trivial: order >= 1 "
         "or coupling block; distinct by (variant, block, order, model, "
         "indices)")
@@ -195,6 +198,49 @@ def run(ctx):
                          f"mvp:{variant}:{bs},{ks}:{order}", deltas=True)
             pairs.append(pr)
             ctx.case(key=pr.label, nontrivial=True, kind="mvp")
+    # ---- (iii') mvp(adc_order, space, order=k) is the sum of the k'th-order
+    #      contributions of the blocks of ADC(adc_order) with that bra space;
+    #      order=None is the sum over all orders -------------------------
+    for variant in (["pp", "ip"] if quick else ["pp", "ip", "ea", "dip"]):
+        m = mats[variant]
+        for adc in ((1, 2) if quick else (0, 1, 2, 3)):
+            try:
+                bo = m.block_order(adc)
+                spaces = sorted(m.max_ptorder_spaces(adc), key=len)
+            except Exception as ex:
+                ctx.note(f"block_order {variant} {adc}: {ex!r}")
+                continue
+            for space in spaces[:1 if quick or adc == 3 else 2]:
+                if space not in NAMES:
+                    continue
+                ib = NAMES[space][0]
+                tg2 = get_symbols(ib)
+                total = 0
+                try:
+                    for k in range(adc + 1):
+                        got = m.mvp(adc, space, ib, order=k)
+                        want = 0
+                        for block, mx in bo.items():
+                            if block[0] == space and mx >= k:
+                                want += m.mvp_block_order(k, space, block, ib)
+                        total += got
+                        pr = EQ.Pair(Expr(got, target_idx=tg2).expand(),
+                                     Expr(want, target_idx=tg2).expand(),
+                                     tg2, f"mvp-order:{variant}:ADC({adc}):"
+                                     f"{space}:order={k}", deltas=True)
+                        pairs.append(pr)
+                        ctx.case(key=pr.label, nontrivial=True,
+                                 kind="mvp-order")
+                    full = m.mvp(adc, space, ib)
+                    pr = EQ.Pair(Expr(full, target_idx=tg2).expand(),
+                                 Expr(total, target_idx=tg2).expand(), tg2,
+                                 f"mvp-order:{variant}:ADC({adc}):{space}:"
+                                 "order=None", deltas=True)
+                    pairs.append(pr)
+                    ctx.case(key=pr.label, nontrivial=True, kind="mvp-order")
+                except Exception as ex:
+                    ctx.violation(f"C03:mvp-exception:{variant}:{adc}:{space}",
+                                  f"mvp raised {ex!r}", {}, False)
     EQ.run_pairs(ctx, "tr", pairs, shard=4)
     for p in pairs:
         if p.ok is None:
